@@ -24,7 +24,7 @@ LEVEL_TEXT = ("All cold-start runs with 1 <= steps <= 9 (thorough 22), 1 <= peri
 LEVEL_NOTE = "Exhaustive only within the stated bounds (evidence sets exhaustive: true); durations are whole numbers of steps as the property's quantifier (number of steps) states."
 RULE = ("case = (steps, period, layout, particle variables, direction); inside a case every numrec value is run and compared with the unsplit run. "
         "Non-trivial: steps % period != 0 or the records do not fill the last file; distinct by the tuple.")
-MANDATORY = ["steps_not_multiple_of_period", "last_file_partial", "last_file_full", "single_record_run", "sparse", "dense", "reversed", "forward", "split_vs_unsplit_records"]
+MANDATORY = ["steps_not_multiple_of_period", "last_file_partial", "last_file_full", "single_record_run", "sparse", "dense", "reversed", "forward", "split_vs_unsplit_records", "output_times_with_empty_state"]
 EXHAUSTIVE = {"quick": True, "thorough": True}
 ASSUMPTIONS = ["cold start only (warm start is C08)"]
 TIMEOUT = {"quick": 900, "thorough": 3400}
@@ -61,8 +61,14 @@ def run_case(case: dict[str, Any], wd: Path) -> dict[str, Any]:
     sit[case["layout"]] = 1
     sit["reversed" if rev else "forward"] = 1
     late = min(ns - 1, 2)
+    if (ns + P) % 3 == 0 and ns > 2:
+        # nothing released at the first output time(s) and everybody dead before the end: output times with an empty state
+        rels, kills_ = [[late, 2]], {ns - 2: "all"}
+        sit["output_times_with_empty_state"] = 1
+    else:
+        rels, kills_ = [[0, 2]] + ([[late, 1]] if late > 0 else []), ({max(0, ns - 2): [0]} if ns > 2 else {})
     base = dict(salt=ns * 100 + P, dt=dt, nsteps=ns, period=P, layout=case["layout"], reversed=rev, reference=None,
-                releases=[[0, 2]] + ([[late, 1]] if late > 0 else []), kills={max(0, ns - 2): [0]} if ns > 2 else {}, pvars=case["pvars"],
+                releases=rels, kills=kills_, pvars=case["pvars"],
                 lonlat=False, enc="f8", speed=0.07, continuous=0)
     unsplit = None
     want_times = [tadd(C.T0, sgn * k * P * dt) for k in range(nrec)]
